@@ -4,7 +4,8 @@ context bounding) under a cooperative scheduler that owns every switch point.
 * Real ``threading.Thread``s; exactly one runs at a time; each has a semaphore ("baton").
 * Switch points: every ``line`` event (``sys.settrace``) whose code object lives under
   ``$VERIF_REPO/src/celpy`` or in ``"<string>"`` (the transpiler's generated module); optionally
-  every ``opcode`` event inside named functions.
+  every ``opcode`` event inside listed code objects.  (sys.monitoring was tried: disabling the
+  foreign locations one by one costs ~9 s per process.)
 * A schedule is a list of choices, one per *scheduling point*: index into the canonical order
   [running thread if still enabled, then the other unfinished threads by ascending id].
   Choice 0 = keep running.  A non-zero choice at a point where the running thread is still
@@ -27,7 +28,7 @@ class Divergence(Exception):
 
 
 class Scheduler:
-    def __init__(self, nthreads, prefix, trace_dirs, opcode_funcs=(), horizon=200000):
+    def __init__(self, nthreads, prefix, trace_dirs, horizon=400000, phases=None):
         self.n = nthreads
         self.prefix = list(prefix)
         self.choices = []      # choice taken at each scheduling point
@@ -36,12 +37,12 @@ class Scheduler:
         self.finished = [False] * nthreads
         self.current = None
         self.trace_dirs = tuple(trace_dirs)
-        self.opcode_funcs = set(opcode_funcs)
         self.horizon = horizon
         self.error = None
         self.done = threading.Semaphore(0)
         self.tls = threading.local()
         self.events = 0
+        self.phases = phases  # optional: per-thread one-element lists holding the body's current phase label
 
     # -- choice -----------------------------------------------------------------------------
     def _choose(self, order, still_enabled, tid, where):
@@ -53,7 +54,7 @@ class Scheduler:
         else:
             c = 0
         self.choices.append(c)
-        self.points.append((len(order), still_enabled, tid, where))
+        self.points.append((len(order), still_enabled, tid, where, self.phases[tid][0] if (self.phases is not None and tid >= 0) else None))
         return order[c]
 
     def _others(self, tid):
@@ -91,31 +92,34 @@ class Scheduler:
         self.current = nxt
         self.baton[nxt].release()
 
-    # -- tracing ----------------------------------------------------------------------------
-    def make_tracer(self, tid):
-        dirs = self.trace_dirs
-        opfuncs = self.opcode_funcs
-        sched = self
+def make_tracer(sched, tid, trace_dirs, opcode_codes):
+    """sys.settrace tracer for one thread: a switch point on every ``line`` event (and every
+    ``opcode`` event inside the listed code objects) of library / generated code.  Frames of
+    foreign code get no local tracer, so they cost one global call each."""
+    dirs = tuple(trace_dirs)
+    opcodes = set(opcode_codes)
 
-        def local(frame, event, arg):
-            if event == "line" or event == "opcode":
-                sched.point(tid, (frame.f_code.co_filename, frame.f_lineno))
+    def local(frame, event, arg):
+        if event == "line":
+            sched.point(tid, (frame.f_code.co_filename, frame.f_lineno))
+        elif event == "opcode":
+            sched.point(tid, (frame.f_code.co_filename, f"{frame.f_code.co_name}+{frame.f_lasti}"))
+        return local
+
+    def glob(frame, event, arg):
+        code = frame.f_code
+        fn = code.co_filename
+        if fn == "<string>" or fn.startswith(dirs):
+            if code in opcodes:
+                frame.f_trace_opcodes = True
             return local
+        return None
 
-        def glob(frame, event, arg):
-            fn = frame.f_code.co_filename
-            if fn == "<string>" or fn.startswith(dirs):
-                if frame.f_code.co_name in opfuncs:
-                    frame.f_trace_opcodes = True
-                return local
-            return None
-
-        return glob
+    return glob
 
 
-def _thread_body(sched, tid, body, results):
+def _thread_body(sched, tid, body, results, tracer):
     sched.thread_start(tid)
-    tracer = sched.make_tracer(tid)
     try:
         sys.settrace(tracer)
         try:
@@ -131,14 +135,15 @@ def _thread_body(sched, tid, body, results):
         sched.thread_end(tid)
 
 
-def execute(bodies, prefix, opcode_funcs=(), first_choice=True):
+def execute(bodies, prefix, opcode_code_objects=(), phases=None):
     """Run the thread bodies once under the schedule ``prefix`` (in THIS process).
     Returns dict(results, choices, points, error)."""
     repo.load()
     n = len(bodies)
-    sched = Scheduler(n, prefix, [os.path.join(repo.SRC, "celpy") + os.sep, os.path.join(repo.SRC, "xlate") + os.sep], opcode_funcs)
+    dirs = [os.path.join(repo.SRC, "celpy") + os.sep, os.path.join(repo.SRC, "xlate") + os.sep]
+    sched = Scheduler(n, prefix, dirs, phases=phases)
     results = [None] * n
-    threads = [threading.Thread(target=_thread_body, args=(sched, i, bodies[i], results), daemon=True) for i in range(n)]
+    threads = [threading.Thread(target=_thread_body, args=(sched, i, bodies[i], results, make_tracer(sched, i, dirs, opcode_code_objects)), daemon=True) for i in range(n)]
     for t in threads:
         t.start()
     # initial pick: free choice among all threads
@@ -184,7 +189,7 @@ def run_in_fork(fn, *args):
 
 def preemptions(points, choices, upto=None):
     k = 0
-    for (n_en, still, _tid, _w), c in list(zip(points, choices))[:upto]:
+    for (n_en, still, *_rest), c in list(zip(points, choices))[:upto]:
         if still and c != 0:
             k += 1
     return k
@@ -198,7 +203,7 @@ def children(res, prefix_len, bound, window=None):
     pts, ch = res["points"], res["choices"]
     cost = preemptions(pts, ch, prefix_len)
     for i in range(prefix_len, len(pts)):
-        n_en, still, tid, where = pts[i]
+        n_en, still = pts[i][0], pts[i][1]
         c = cost + (1 if still else 0)
         if c <= bound and n_en > 1:
             if not still or window is None or window(i, pts[i]):
